@@ -478,15 +478,38 @@ def sym_if(c, a, b):
     return Sym(z3.If(c.t, ta, tb), k)
 
 
+def _order(a, b):
+    """'le' if the path condition entails a <= b, 'ge' if it entails a >= b, else None (keeps terms small)."""
+    if CTX.sign_oracle is None:
+        return None
+    d = Sym.lift(b) - a
+    if not isinstance(d, Sym):
+        return 'le' if d >= 0 else 'ge'
+    if z3.is_app_of(d.t, z3.Z3_OP_ITE) and d.t.num_args() and False:
+        return None
+    sg = CTX.sign_oracle(d.t, True)
+    return {'pos': 'le', 'neg': 'ge'}.get(sg)
+
+
 def smin(a, b):
     if is_conc(a) and is_conc(b):
         return a if a <= b else b
+    o = _order(a, b)
+    if o == 'le':
+        return a
+    if o == 'ge':
+        return b
     return sym_if(Sym.lift(b) < a, b, a)
 
 
 def smax(a, b):
     if is_conc(a) and is_conc(b):
         return a if a >= b else b
+    o = _order(a, b)
+    if o == 'le':
+        return b
+    if o == 'ge':
+        return a
     return sym_if(Sym.lift(b) > a, b, a)
 
 
